@@ -167,9 +167,10 @@ SPECS["C05"] = {
 }
 
 SPECS["C29"] = {
-    "parts": [{"engine": "m", "module": "c29"}],
-    "bounds": "any number of proposed presentation contexts up to 100 000 that create_a_associate_req lets through (its guards are taken from its own MIR), any pair of positions",
-    "outside": "agreement of requestor and acceptor on the negotiated contexts and maximum PDU lengths, local rejection of over-long sends, the loopback exchange (sockets, threads): not encoded",
+    "parts": [{"engine": "m", "module": "c29"}, {"engine": "m", "module": "c29send"}],
+    "bounds": "any number of proposed presentation contexts up to 100 000 that create_a_associate_req lets through (its guards are taken from its own MIR), any pair of positions; "
+              "send-size limit: encode_pdu + write_pdu on P-DATA-TF PDUs of 1..4 PDVs with payloads of 0..16000 bytes (concrete per instance, sizes a real association admits) and a symbolic peer maximum (any u32)",
+    "outside": "agreement of requestor and acceptor on the negotiated contexts and maximum PDU lengths, the PDU kinds other than P-DATA-TF in encode_pdu, the asynchronous send path's own buffering, the loopback exchange itself (sockets, threads: used only to replay counterexamples)",
     "assumptions": ["callees of create_a_associate_req other than the context vector's len/is_empty are havocked (unconstrained): an over-approximation, so 'holds' is sound and every counterexample "
                     "is replayed against a real requestor over a loopback socket before it is reported"],
 }
